@@ -3,7 +3,7 @@
    function of /repo, regenerated on every run (Generated/SrcCli.v, configuration CLI_PREPARE of
    harness/src_functions.py), for every record of library functions and all parsed arguments. *)
 From Coq Require Import ZArith List Bool.
-From Batchie Require Import Lib.Sexp Lib.PyRt Model.Cli Generated.SrcCli Proofs.PyRtLemmas Proofs.C06SourceCli.
+From Batchie Require Import Lib.Sexp Lib.PyRt Model.Cli Generated.SrcCli Proofs.PyRtLemmas Proofs.C06SourceCli_Prng.
 Import ListNotations.
 Open Scope Z_scope.
 
